@@ -49,3 +49,172 @@ def rangeForLength : List ((Int × Option Int) × Option Int × Option (Int × I
 end Wz.Gen.RangeTbl
 """
     return write("RangeTbl", body, "src/werkzeug/http.py, src/werkzeug/datastructures/range.py")
+
+
+# ---------------------------------------------------------------------------------------------
+# entity tags: the live `parse_etags` over small header texts (quoted vs unquoted syntax look-alikes)
+
+ETAG_ALPHABET = '"*W/, a'
+# entity tags (and garbage) whose text looks like syntax; every one alone, every ordered pair with
+# both separators, and every triple of the first six
+ETAG_POOL = ['*', '"*"', 'W/"*"', 'W/*', '"a"', 'W/"a"', 'w/"*"', 'a', '""', 'W/""', '"W/"', '","', '"a,b"', '"a""', '" "', '"*', '*"', '"**"', 'W/', '"w/*"', '"\\"', "'*'"]
+
+
+def lean_chars(s):
+    """a `List Char` literal (explicit list: `String.toList` of a literal is slow in the kernel)"""
+
+    def ch(c):
+        return "'\\''" if c == "'" else "'\\\\'" if c == "\\" else f"'{c}'" if 32 <= ord(c) < 127 else "(Char.ofNat %d)" % ord(c)
+
+    return "[" + ", ".join(ch(c) for c in s) + "]"
+
+
+def etag_texts():
+    import itertools
+
+    texts = ["".join(t) for n in range(0, 4) for t in itertools.product(ETAG_ALPHABET, repeat=n)]
+    texts += ETAG_POOL
+    for sep in (",", ", ", " , "):
+        texts += [a + sep + b for a in ETAG_POOL for b in ETAG_POOL]
+    texts += [", ".join(t) for t in itertools.product(ETAG_POOL[:6], repeat=3)]
+    seen, out = set(), []
+    for t in texts:
+        if t not in seen:
+            seen.add(t)
+            out.append(t)
+    return out
+
+
+@generator("EtagTbl")
+def gen_etags():
+    http = importlib.import_module("werkzeug.http")
+    rows = []
+    for t in etag_texts():
+        e = http.parse_etags(t)
+        strong = "[" + ", ".join(lean_chars(x) for x in sorted(e._strong)) + "]"
+        weak = "[" + ", ".join(lean_chars(x) for x in sorted(e._weak)) + "]"
+        rows.append(f"({lean_chars(t)}, {strong}, {weak}, {lean_bool(e.star_tag)})")
+    # split into blocks so that every `decide` obligation stays small
+    n = 250
+    blocks = [rows[i : i + n] for i in range(0, len(rows), n)]
+    defs = "\n\n".join(f"def rows{i} : List Row := {lean_list(b, 2)}" for i, b in enumerate(blocks))
+    pat = http._etag_re.pattern
+    body = f"""namespace Wz.Gen.EtagTbl
+
+/-- `(header text, sorted(strong tags), sorted(weak tags), star_tag)` of the live `parse_etags` -/
+abbrev Row := List Char × List (List Char) × List (List Char) × Bool
+
+/-- `_etag_re.pattern`, `_etag_re.flags` -/
+def etagRe : List Char × Nat := ({lean_chars(pat)}, {int(http._etag_re.flags)})
+
+{defs}
+
+/-- all row blocks -/
+def blocks : List (List Row) := [{", ".join(f"rows{i}" for i in range(len(blocks)))}]
+
+end Wz.Gen.EtagTbl
+"""
+    return write("EtagTbl", body, "src/werkzeug/http.py (parse_etags, _etag_re)")
+
+
+# ---------------------------------------------------------------------------------------------
+# constants of the conditional glue, read from the AST / the live objects
+
+
+def _parse_src(rel):
+    import ast
+    import os
+
+    from extract_lib import REPO
+
+    with open(os.path.join(REPO, "src", rel)) as f:
+        return ast.parse(f.read())
+
+
+def _find_fn(tree, name, cls=None):
+    import ast
+
+    scope = tree.body
+    if cls is not None:
+        scope = [n for n in tree.body if isinstance(n, ast.ClassDef) and n.name == cls][0].body
+    fns = [n for n in scope if isinstance(n, ast.FunctionDef) and n.name == name]
+    return fns[-1]  # after the @overload stubs
+
+
+@generator("CondConsts")
+def gen_cond_consts():
+    import ast
+    import inspect
+
+    # 1. http.is_resource_modified: which environ key feeds which argument of the sans-io function
+    fn = _find_fn(_parse_src("werkzeug/http.py"), "is_resource_modified")
+    call = [c for c in ast.walk(fn) if isinstance(c, ast.Call) and ast.unparse(c.func).endswith("is_resource_modified")][0]
+    env_keys = []
+    for kw in call.keywords:
+        v = kw.value
+        if isinstance(v, ast.Call) and ast.unparse(v.func) == "environ.get":
+            env_keys.append(f"({lean_chars(kw.arg)}, {lean_chars(v.args[0].value)})")
+    # 2. Response.make_conditional: the methods it acts on, the status codes it sets, the arguments it
+    #    hands to is_resource_modified; _process_range_request: its status code
+    rtree = _parse_src("werkzeug/wrappers/response.py")
+    mc = _find_fn(rtree, "make_conditional", "Response")
+    methods = []
+    for n in ast.walk(mc):
+        if isinstance(n, ast.Compare) and "REQUEST_METHOD" in ast.unparse(n.left) and isinstance(n.ops[0], ast.In):
+            methods = [e.value for e in n.comparators[0].elts]
+
+    def status_codes(f):
+        out = []
+        for n in ast.walk(f):
+            if isinstance(n, ast.Assign) and ast.unparse(n.targets[0]) == "self.status_code" and isinstance(n.value, ast.Constant):
+                out.append(n.value.value)
+        return out
+
+    irm = [c for c in ast.walk(mc) if isinstance(c, ast.Call) and ast.unparse(c.func) == "is_resource_modified"][0]
+    irm_args = [ast.unparse(a) for a in irm.args] + [f"{k.arg}={ast.unparse(k.value)}" for k in irm.keywords]
+    prr = _find_fn(rtree, "_process_range_request", "Response")
+    irp = _find_fn(rtree, "_is_range_request_processable", "Response")
+    irm2 = [c for c in ast.walk(irp) if isinstance(c, ast.Call) and ast.unparse(c.func) == "is_resource_modified"][0]
+    irm2_args = [ast.unparse(a) for a in irm2.args] + [f"{k.arg}={ast.unparse(k.value)}" for k in irm2.keywords]
+    # 3. send_file: the make_conditional call and the generated entity tag
+    sf = _find_fn(_parse_src("werkzeug/utils.py"), "send_file")
+    mcc = [c for c in ast.walk(sf) if isinstance(c, ast.Call) and ast.unparse(c.func) == "rv.make_conditional"][0]
+    mcc_args = [ast.unparse(a) for a in mcc.args] + [f"{k.arg}={ast.unparse(k.value)}" for k in mcc.keywords]
+    fmt = []
+    for c in ast.walk(sf):
+        if isinstance(c, ast.Call) and ast.unparse(c.func) == "rv.set_etag" and isinstance(c.args[0], ast.JoinedStr):
+            for piece in c.args[0].values:
+                fmt.append(piece.value if isinstance(piece, ast.Constant) else "{" + ast.unparse(piece.value) + "}")
+    wsgi = importlib.import_module("werkzeug.wsgi")
+    buf_wrap = inspect.signature(wsgi.wrap_file).parameters["buffer_size"].default
+    buf_fw = inspect.signature(wsgi.FileWrapper.__init__).parameters["buffer_size"].default
+
+    def strs(xs):
+        return "[" + ", ".join(lean_chars(x) for x in xs) + "]"
+
+    body = f"""namespace Wz.Gen.CondConsts
+
+/-- `http.is_resource_modified(environ, …)`: (argument of the sans-io function, environ key it is read from) -/
+def envKeys : List (List Char × List Char) := {lean_list(env_keys, 1)}
+
+/-- `Response.make_conditional` acts when `environ["REQUEST_METHOD"]` is one of -/
+def condMethods : List (List Char) := {strs(methods)}
+
+/-- status codes assigned in `make_conditional` (source order) and in `_process_range_request` -/
+def condStatuses : List Nat := [{", ".join(str(x) for x in status_codes(mc))}]
+def rangeStatuses : List Nat := [{", ".join(str(x) for x in status_codes(prr))}]
+
+/-- arguments of the `is_resource_modified` calls in `make_conditional` / `_is_range_request_processable` -/
+def condCallArgs : List (List Char) := {strs(irm_args)}
+def ifRangeCallArgs : List (List Char) := {strs(irm2_args)}
+
+/-- `send_file`: arguments of `rv.make_conditional(...)`, pieces of the generated entity tag -/
+def sendFileCallArgs : List (List Char) := {strs(mcc_args)}
+def sendFileEtagFormat : List (List Char) := {strs(fmt)}
+
+/-- default `buffer_size` of `wrap_file` and of `FileWrapper` -/
+def bufferDefaults : Nat × Nat := ({buf_wrap}, {buf_fw})
+
+end Wz.Gen.CondConsts
+"""
+    return write("CondConsts", body, "src/werkzeug/http.py, wrappers/response.py, utils.py, wsgi.py")
